@@ -18,7 +18,7 @@ import numpy as np
 from . import model as M, typegen
 from .core import exc_sig, quarantined
 
-KINDS = ["index_oob", "index_oob", "array_shape", "array_shape", "array_dims", "scalar_sequence", "array_nested_deeper", "misfit_at_offset", "string_long", "string_long", "items_large", "items_large", "struct_partial", "union_nonmember", "union_nonmember", "ctx_mismatch", "offset_nobuf", "negative_size"]
+KINDS = ["index_oob", "index_oob", "array_shape", "array_shape", "array_dims", "scalar_sequence", "array_nested_deeper", "misfit_at_offset", "string_long", "string_long", "items_large", "items_large", "struct_partial", "union_nonmember", "union_nonmember", "ctx_mismatch", "offset_nobuf", "negative_size", "string_update_method"]
 
 
 def gen(gs, w):
@@ -299,7 +299,33 @@ def gen_ctx_mismatch(gs, w):
     from .objsim import pick_buf
 
     b = pick_buf(w, rng)
-    return {"type": t, "value": v, "buf": b, "ctx": rng.choice(["default"] + list(range(len(w.ctxs))))}
+    op = {"type": t, "value": v, "buf": b, "ctx": rng.choice(["default"] + list(range(len(w.ctxs))))}
+    regions = [i for i, r in enumerate(w.regions) if r is not None and w.bufs.index(r[0]) == b and r[2] >= 8]
+    if regions and rng.random() < 0.4:
+        # ... together with an explicit offset (inside a region of that buffer that is in use)
+        op["region"] = rng.choice(regions)
+    return op
+
+
+def gen_string_update_method(gs, w):
+    """The public String.update(value) with a text just beyond the capacity fixed at creation
+    (within the 8-byte rounding of it)."""
+    rng = gs.rng
+    from .objsim import pick_buf
+
+    cands = [o for o in w.live_objs() if w.schema[o.t]["k"] == "str" and o.node.cap is not None and o.node.cap % 8 != 0]
+    if cands and rng.random() < 0.5:
+        o = rng.choice(cands)
+        cap = o.node.cap
+        op = {"obj": o.k}
+    else:
+        # a string made for the occasion from a capacity that is not a multiple of 8
+        cap = rng.choice([1, 2, 3, 5, 7, 9, 10, 12, 13, 15, 30])
+        op = {"cap": cap, "buf": pick_buf(w, rng)}
+    capr = (cap + 7) // 8 * 8
+    n = rng.randint(cap, capr - 1)  # n bytes of text + NUL > cap
+    op.update({"text": rng.choice("uvw") * n, "as_obj": rng.random() < 0.3})
+    return op
 
 
 def gen_misfit_at_offset(gs, w):
@@ -392,6 +418,20 @@ def run(step):
             step.after_misuse = lambda: (buf.get_free(), buf.capacity) == free_before or step.viol("C11", "refused_operation_changed_allocator_state", [kind], f"free bytes / capacity {free_before} -> {(buf.get_free(), buf.capacity)} after a refused construction at an explicit offset {roff} (the region is in use)")
             # the region is the harness's own: bytes inside it may be written before the refusal
             step.allowed.append((buf, roff, roff + rsize))
+        elif kind == "string_update_method":
+            if "cap" in op:
+                if op["buf"] >= len(w.bufs) or len(op["text"]) + 1 <= op["cap"]:
+                    raise Skip()
+                sobj = xo.String(op["cap"], _buffer=w.bufs[op["buf"]])
+                feat = f"cap{op['cap'] % 8}"
+            else:
+                o = step.get_obj(op["obj"])
+                if w.schema[o.t]["k"] != "str" or o.node.cap is None or len(op["text"]) + 1 <= o.node.cap:
+                    raise Skip()
+                feat = f"cap{o.node.cap % 8}"
+                sobj = o.view()
+            val = xo.String(op["text"], _context=xo.ContextCpu()) if op.get("as_obj") else op["text"]
+            call = lambda: sobj.update(val)
         elif kind == "negative_size":
             t = op["type"]
             if t >= len(w.schema) or op["buf"] >= len(w.bufs):
@@ -416,7 +456,13 @@ def run(step):
                 ctx = w.default_ctx if op["ctx"] == "default" else w.ctxs[op["ctx"]] if op["ctx"] < len(w.ctxs) else None
                 if ctx is None or ctx is buf.context:
                     raise Skip()
-                call = lambda: cls(py, _buffer=buf, _context=ctx)
+                if op.get("region") is not None:
+                    if op["region"] >= len(w.regions) or w.regions[op["region"]] is None or w.regions[op["region"]][0] is not buf:
+                        raise Skip()
+                    roff = w.regions[op["region"]][1]
+                    call = lambda: cls(py, _buffer=buf, _context=ctx, _offset=roff)
+                else:
+                    call = lambda: cls(py, _buffer=buf, _context=ctx)
             else:
                 ctx = None if op["ctx"] is None or op["ctx"] >= len(w.ctxs) else w.ctxs[op["ctx"]]
                 call = lambda: cls(py, _offset=op["offset"], _context=ctx)
